@@ -205,7 +205,7 @@ def task_mutable_defaults(ctx):
 
     importlib.import_module("seqm.Molecule")
     msrc = inspect.getsource(sys.modules["seqm.Molecule"].Molecule.__init__)
-    ok = "copy.deepcopy(" in msrc and "self.packpar(self.Z, learned_params=" in msrc
+    ok = ("copy_packed_parameters(" in msrc or "copy.deepcopy(" in msrc) and "self.packpar(self.Z, learned_params=" in msrc
     (ctx.ok if ok else ctx.fail)("molecule-parameters-do-not-alias-the-shared-default", "frames" if ok else "deepcopy of the packed parameters not found")
 
 
